@@ -134,6 +134,52 @@ fn empty_wide_suite() -> SuiteReport {
     })
 }
 
+/// Every width 1..=4200 (with 10 rows) and every height 1..=4200 (with 10 columns): a boundary
+/// inside an otherwise uniform range of one dimension (a buffer sized for "N blocks", a table
+/// with one entry too few) shows at a handful of values only.
+fn sweep_item(seed: u64, i: u64, acc: &mut Acc) {
+    let n = (i / 2 + 1) as usize;
+    let (w, h) = if i % 2 == 0 { (n, 10) } else { (10, n) };
+    let s = (n % 12 + 1) as u8;
+    for kind in [0u32, 2 + (n % 6) as u32] {
+        if let Err(m) = one(seed, w, h, s, kind) {
+            acc.fail(json!({"kind":"params","w":w,"h":h,"strength":s,"content":kind}), m);
+            return;
+        }
+        acc.count(true);
+    }
+}
+
+/// Calls in sequence on one thread: the same number of samples under different widths (w x h,
+/// h x w, 2w x h/2, ...), the same size again, another size in between. `deblock` is a function
+/// of its arguments; nothing of an earlier call may survive into a later one. Each result is
+/// compared with the reference filter.
+fn sequence_item(seed: u64, i: u64, acc: &mut Acc) {
+    use crate::model::deblock::deblock_ref;
+    let a = (i % 40 + 1) as usize * 2;
+    let b = (i / 40 % 40 + 1) as usize * 2;
+    let s = (i % 12 + 1) as u8;
+    let shapes: [(usize, usize); 7] = [(a, b), (b, a), (a * 2, (b / 2).max(1)), (a, b), ((a / 2).max(1), b * 2), (a * b, 1), (1, a * b)];
+    for (k, (w, h)) in shapes.iter().enumerate() {
+        if w * h != a * b && !(k == 2 || k == 4) {
+            continue;
+        }
+        let data = content(seed ^ i, *w, *h, s, (k % 2) as u32);
+        let out = match guard(|| deblock(&data, *w, s)) {
+            Ok(o) => o,
+            Err(p) => {
+                acc.fail(json!({"kind":"params","sequence":i}), format!("call {} of a sequence of calls ({}x{} after {:?}), strength {}: panicked: {}", k, w, h, &shapes[..k], s, p));
+                return;
+            }
+        };
+        acc.count(true);
+        if out != deblock_ref(&data, *w, s) {
+            acc.fail(json!({"kind":"params","sequence":i}), format!("call {} of a sequence of calls on one thread ({}x{} after {:?}, strength {}) differs from the reference filter; the same call first in a sequence is right", k, w, h, &shapes[..k], s));
+            return;
+        }
+    }
+}
+
 pub fn run(ctx: &Ctx) -> i32 {
     let (wmax, hmax) = ctx.tier.pick((96u64, 64u64), (300u64, 200u64));
     let seed = ctx.seed;
@@ -141,13 +187,15 @@ pub fn run(ctx: &Ctx) -> i32 {
     reports.push(empty_wide_suite());
     reports.push(exhaustive_suite(ctx, "extreme_sizes", 384, &move |i, acc| extreme_item(seed, i, acc)));
     reports.push(exhaustive_suite(ctx, "size_strength_grid", wmax * (hmax + 1), &move |i, acc| grid_item(seed, wmax, i, acc)));
+    reports.push(exhaustive_suite(ctx, "every_width_and_height_to_4200", 8400, &move |i, acc| sweep_item(seed, i, acc)));
+    reports.push(exhaustive_suite(ctx, "call_sequences", 1600, &move |i, acc| sequence_item(seed, i, acc)));
     let mut extra = Map::new();
     extra.insert("grid".into(), json!(format!("widths 1..={} x heights 0..={} x strengths 1..=12", wmax, hmax)));
     finish(
         ctx,
         reports,
         Summary {
-            rule: "Enumerated: every width x height x strength in the stated box with eight contents (hash bytes keyed by the parameters and VERIF_SEED, hash-chosen extremes, one-sample 255/0 column stripes, row stripes and checkerboards in both phases, which put the extreme filter differences on every edge) must return a vector of the input length without panicking; all 31 entries of the quantizer-to-strength table are compared with Table J.2. Non-trivial = fewer than 2 rows, fewer than 10 columns, or a size with remainder rows/columns.",
+            rule: "Enumerated: every width x height x strength in the stated box with eight contents (hash bytes keyed by the parameters and VERIF_SEED, hash-chosen extremes, one-sample 255/0 column stripes, row stripes and checkerboards in both phases, which put the extreme filter differences on every edge) must return a vector of the input length without panicking; every width 1..4200 at 10 rows and every height 1..4200 at 10 columns; sequences of calls on one thread with the same sample count under different widths, each compared with the reference filter; all 31 entries of the quantizer-to-strength table are compared with Table J.2. Non-trivial = fewer than 2 rows, fewer than 10 columns, or a size with remainder rows/columns.",
             assumptions: vec!["data.len() is a multiple of width (documented precondition); width >= 1".into()],
             exhaustive: false,
             extra,
@@ -157,7 +205,15 @@ pub fn run(ctx: &Ctx) -> i32 {
 
 pub fn replay(suite: &str, case: &Value) -> Option<Verdict> {
     match suite {
-        "size_strength_grid" | "extreme_sizes" => {
+        "call_sequences" => {
+            let mut acc = Acc::default();
+            sequence_item(case["seed"].as_u64().unwrap_or(1), case["sequence"].as_u64()?, &mut acc);
+            Some(match acc.failure {
+                Some((_, _, m, _)) => Verdict::fail(m),
+                None => Verdict::pass(true, 0),
+            })
+        }
+        "size_strength_grid" | "extreme_sizes" | "every_width_and_height_to_4200" => {
             let w = case["w"].as_u64()? as usize;
             let h = case["h"].as_u64()? as usize;
             let s = case["strength"].as_u64()? as u8;
